@@ -650,6 +650,44 @@ Definition apps_transmit_telegram (f : fdl) (now : Z) (w : W) (high_prio_only : 
 Definition set_first_cycle_done (f : fdl) : res fdl :=
   let* (tt_, fa, _) := get_use_token (f_state f) in Ok (set_st f (UseToken tt_ fa true)).
 
+(* do_pass_token, :1287-1339 (token passing; defined here because do_use_token ends in it since the F20 repair) *)
+Definition do_pass_token (f : fdl) (now : Z) (w : W) : res (fdl * W) :=
+  let* _ := assert_entry DoPassToken f in
+  let* (f, wait) := wait_synchronization_pause f now in                      (* :1276 *)
+  if wait then Ok (f, note w TSyncWait) else
+  let* (do_gap, _) := get_pass_token (f_state f) in
+  let* (f, w, polled) :=
+    (if do_gap then                                                          (* :1278-1301 *)
+       let* (f, w) :=
+         (match f_gap f with
+          | GapWaiting rotation_count =>
+              if p_gap_wait (f_p f) <? rotation_count then
+                next_gap_poll_traced f (note w TGapWaitDone) (ts f)
+              else
+                let* rc := u8_add rotation_count 1 in
+                Ok (set_gap f (GapWaiting rc), note w TGapWaitCount)
+          | GapDoPoll current_address => next_gap_poll_traced f w current_address
+          end) in
+       transmit_gap_poll_if_pending f now w
+     else Ok (f, w, None)) in
+  match polled with
+  | Some poll_address =>
+      trans f w (fun s => transition_await_status_response s poll_address)
+  | None =>
+      let ns := r_ns (f_ring f) in
+      let* (w, n) := phy_send w (TxToken ns (ts f)) in                        (* :1303-1307 *)
+      let* r := witness (f_ring f) (ts f) ns in                              (* :1309 *)
+      let f := set_ring f r in
+      let* (f, w) :=
+        (if r_ns (f_ring f) =? ts f then                                     (* :1312-1318 *)
+           trans f (note w TPassTokenToSelf) (fun s => transition_use_token s now None)
+         else
+           let* (_, attempt) := get_pass_token (f_state f) in
+           trans f (note w TPassToken) (fun s => transition_check_token_pass s attempt)) in
+      let* f := mark_tx f now n in
+      Ok (f, w)
+  end.
+
 (* do_use_token, :1163-1199 *)
 Definition do_use_token (f : fdl) (now : Z) (w : W) : res (fdl * W) :=
   let* _ := assert_entry DoUseToken f in
@@ -676,7 +714,8 @@ Definition do_use_token (f : fdl) (now : Z) (w : W) : res (fdl * W) :=
        apps_transmit_telegram f now (note w TUseHighPrioOnce) true
      else Ok (f, note w TUseHoldOver, false)) in
   if done then Ok (f, w) else
-  trans f w (fun s => transition_pass_token s true first_attempt).           (* :1195 *)
+  let* (f, w) := trans f w (fun s => transition_pass_token s true first_attempt) in   (* :1210 *)
+  do_pass_token f now w.                                                     (* :1215, F20 repair *)
 
 (* the reply admission filter, :1223-1229 *)
 Definition is_valid_response (f : fdl) (address : Z) (t : telegram) : bool :=
@@ -728,44 +767,6 @@ Definition do_await_data_response (f : fdl) (now : Z) (w : W) : res (fdl * W) :=
 
 (* ------------------------------------------------------------------------------------------ *)
 (* Token passing (active.rs:1268-1422)                                                         *)
-
-(* do_pass_token, :1268-1321 *)
-Definition do_pass_token (f : fdl) (now : Z) (w : W) : res (fdl * W) :=
-  let* _ := assert_entry DoPassToken f in
-  let* (f, wait) := wait_synchronization_pause f now in                      (* :1276 *)
-  if wait then Ok (f, note w TSyncWait) else
-  let* (do_gap, _) := get_pass_token (f_state f) in
-  let* (f, w, polled) :=
-    (if do_gap then                                                          (* :1278-1301 *)
-       let* (f, w) :=
-         (match f_gap f with
-          | GapWaiting rotation_count =>
-              if p_gap_wait (f_p f) <? rotation_count then
-                next_gap_poll_traced f (note w TGapWaitDone) (ts f)
-              else
-                let* rc := u8_add rotation_count 1 in
-                Ok (set_gap f (GapWaiting rc), note w TGapWaitCount)
-          | GapDoPoll current_address => next_gap_poll_traced f w current_address
-          end) in
-       transmit_gap_poll_if_pending f now w
-     else Ok (f, w, None)) in
-  match polled with
-  | Some poll_address =>
-      trans f w (fun s => transition_await_status_response s poll_address)
-  | None =>
-      let ns := r_ns (f_ring f) in
-      let* (w, n) := phy_send w (TxToken ns (ts f)) in                        (* :1303-1307 *)
-      let* r := witness (f_ring f) (ts f) ns in                              (* :1309 *)
-      let f := set_ring f r in
-      let* (f, w) :=
-        (if r_ns (f_ring f) =? ts f then                                     (* :1312-1318 *)
-           trans f (note w TPassTokenToSelf) (fun s => transition_use_token s now None)
-         else
-           let* (_, attempt) := get_pass_token (f_state f) in
-           trans f (note w TPassToken) (fun s => transition_check_token_pass s attempt)) in
-      let* f := mark_tx f now n in
-      Ok (f, w)
-  end.
 
 (* do_await_status_response, :1323-1355 *)
 Definition do_await_status_response (f : fdl) (now : Z) (w : W) : res (fdl * W) :=
